@@ -130,7 +130,35 @@ cam16_rt!(lat_cam16_average, Surround::Average, "average surround");
 cam16_rt!(lat_cam16_dim, Surround::Dim, "dim surround");
 cam16_rt!(lat_cam16_dark, Surround::Dark, "dark surround");
 
+
+macro_rules! cam16_forward {
+    ($name:ident, $surround:expr, $consts:expr, $what:expr) => {
+        program!($name, "C16", "quick", l,
+            "Cam16::from_xyz -> cam16::math::{prepare_parameters, xyz_to_cam16}, Parameters::bake [cam16/math.rs, cam16/parameters.rs, cam16/full.rs]",
+            concat!($what, ": the forward model equals the published CAM16 equations (Li et al. 2017, transcribed independently in specs.rs::cam16_forward) - J, C, h, Q, M, s within 1e-7 relative - for every colour of the sRGB gamut strictly brighter than black and adapting luminances from 0.2 to 1000 cd/m^2"),
+        {
+            let (r, g, b, e) = (T::var("r", 0.02, 1.0), T::var("g", 0.02, 1.0), T::var("b", 0.02, 1.0), T::var("log10_la", -0.7, 3.0));
+            let la = palette::num::Powf::powf(T::k(10.0), e);
+            let c: Xyz<D65, T> = Xyz::from_color_unclamped(LinSrgb::<T>::new(r, g, b));
+            let mut p: Parameters<StaticWp<D65>, T> = Parameters::default_static_wp(la);
+            p.surround = $surround;
+            let full: Cam16<T> = Cam16::from_xyz(c, p.bake());
+            let (j, cc, h, q, m, s) = crate::specs::cam16_forward::<T>((c.x, c.y, c.z), crate::specs::W_D65, la, 0.2, $consts);
+            let rel = |x: T, y: T| abs_le(x, y, T::k(1e-7) * (T::k(1.0) + palette::num::Abs::abs(y)));
+            T::ensure("lightness_J", rel(full.lightness, j));
+            T::ensure("chroma_C", rel(full.chroma, cc));
+            T::ensure("hue_h", hue_mod(full.hue.into_raw_degrees(), h, 1e-6));
+            T::ensure("brightness_Q", rel(full.brightness, q));
+            T::ensure("colorfulness_M", rel(full.colorfulness, m));
+            T::ensure("saturation_s", rel(full.saturation, s));
+        });
+    };
+}
+cam16_forward!(lat_cam16_forward_average, Surround::Average, (0.69, 1.0, 1.0), "average surround");
+cam16_forward!(lat_cam16_forward_dim, Surround::Dim, (0.59, 0.9, 0.9), "dim surround");
+cam16_forward!(lat_cam16_forward_dark, Surround::Dark, (0.525, 0.8, 0.8), "dark surround");
+
 pub fn all() -> Vec<crate::Prog> {
     vec![lat_ok_cylinders_from_oklab::prog(), lat_ok_cylinders_to_oklab::prog(), lat_ok_from_rgb::prog(), lat_hsluv::prog(),
-         lat_cam16_average::prog(), lat_cam16_dim::prog(), lat_cam16_dark::prog()]
+         lat_cam16_average::prog(), lat_cam16_dim::prog(), lat_cam16_dark::prog(), lat_cam16_forward_average::prog(), lat_cam16_forward_dim::prog(), lat_cam16_forward_dark::prog()]
 }
